@@ -74,6 +74,21 @@ theorem C13_derived_parameters_exact {c : Content} (hn : WFnames c) {dp dv : Lis
     (∀ k, dp.count k + dv.count k = (omKeys c.derived).count k) :=
   getClasses_exact hn h
 
+/-- **What is frozen**: the cache's parameter table (the values that do not change with state or
+    time, `C13_parameters_frozen`) holds exactly the parameters — plain or assignment-defined —
+    and the derived quantities that depend, through any chain, only on parameters. -/
+theorem C13_parameter_table_exact {c : Content} (hn : WFnames c) {cache : Cache}
+    (hc : createCache c = .ok cache) (n : Name) :
+    n ∈ omKeys cache.allPars ↔ n ∈ omKeys c.pars ∨ (n ∈ omKeys c.derived ∧ OnlyParams c n) :=
+  allPars_keys_exact hn hc n
+
+/-- **What is recomputed**: per state and time `_get_args` re-evaluates exactly the reactions, the
+    surrogates and the derived quantities that do *not* depend on parameters only. -/
+theorem C13_dynamic_exact {c : Content} (hn : WFnames c) {cache : Cache}
+    (hc : createCache c = .ok cache) {k : Name} (hk : k ∈ cache.order) :
+    k ∈ cache.dynOrder ↔ (isRS c k = true ∨ (k ∈ omKeys c.derived ∧ ¬ OnlyParams c k)) :=
+  dynOrder_spec hn hc hk
+
 /-- the classification is a property of the graph alone: two contents with the same parameters
     names and the same derived quantities (as a lookup table) have the same `OnlyParams` — so
     neither declaration order, nor values, nor the state can change what is a derived parameter -/
